@@ -36,8 +36,9 @@ BidIsComplete(b) == b \in {"complete", "maxtotal"}
 ValidVote(v) == /\ v.type \in {"prevote", "precommit"}
                 /\ (BidIsZero(v.bid) \/ BidIsComplete(v.bid))
                 /\ v.sig # "empty"
-(* Proposal.ValidateBasic *)
-ValidProposal(p) == BidIsComplete(p.bid) /\ p.sig # "empty"
+(* Proposal.ValidateBasic (since 2c4d547 the part count is bounded by MaxBlockPartsCount; before, a proposal with   *)
+(* Total = 2^32-1 survived the codec and sized an allocation at the receiver)                                     *)
+ValidProposal(p) == BidIsComplete(p.bid) /\ p.bid # "maxtotal" /\ p.sig # "empty"
 (* CommitSig.ValidateBasic *)
 ValidCommitSig(s) == /\ s.flag \in {"absent", "commit", "nil"}
                      /\ (s.flag = "absent" => s.addr = "zero" /\ s.ts = "zero" /\ s.sig = "empty")
